@@ -39,14 +39,15 @@ SCOPE = [
 # literal (regex / string / char tested on the text)  ->  class.  Confirmed by reading.
 # Anything not listed is STRICT (fail closed).
 LITERAL_CLASS = {
-    # env_in_token: $NAME / ${NAME} / $? / $$ expand inside double quotes
-    r"\$\{?[\$\?]\}?": "DQ",
+    # env_in_token: $NAME / ${NAME} / $? / $$ expand inside double quotes, but not when the leading `$` was
+    # backslash-escaped (the tokenizer marks that with the tag `\\`)
+    r"\$\{?[\$\?]\}?": "DQB",
     # should_do_dollar_command_extension: $( ... ) runs inside double quotes, not after a backslash
     r"\$\([^\)]+\)": "DQB",
     # embedded backquotes run inside double quotes
     r"^([^`]*)`([^`]+)`(.*)$": "DQ",
-    # positional parameters $1 ${1} $@ expand inside double quotes
-    r"\$\{?[0-9@]+\}?": "DQ",
+    # positional parameters $1 ${1} $@ expand inside double quotes, not after an escaping backslash
+    r"\$\{?[0-9@]+\}?": "DQB",
     # history expansion !! happens inside double quotes
     r"!!": "DQ",
 }
